@@ -2000,6 +2000,17 @@ def t_fragtext( ctx ):
     plain = cell( False, { 'data': [ 1 ] } )
     fragd = cell( True, { 'data': [ 1 ] } )
     res.cells += 2
+    # a fragment is placed RELATIVE to its range: `elements` counts the elements of the range, the byte offset those ahead of this fragment in
+    # it - wherever in the tag the range begins ( the other locals of the check are 4: a range beginning at element 4 ).  By value: the last
+    # three of ten elements, at byte offset 28, are a legal fragment; four at that offset are one too many
+    tile = cell( False, { 'data': [ 1, 2, 3 ], 'elements': 10, 'offset': 28 } )
+    over = cell( False, { 'data': [ 1, 2, 3, 4 ], 'elements': 10, 'offset': 28 } )
+    res.cells += 2
+    if tile != 'fall' or over != 'raise':
+        res.bad( src, ifs[0], 'parse_operations: the last 3 of 10 elements at byte offset 28 are %s, 4 elements there are %s' % ( 'accepted' if tile == 'fall' else 'refused', 'accepted' if over == 'fall' else 'refused' ),
+                 'a legal fragment of a range that does not begin at element 0 ( D[5-14]+12=... ) is refused by the client - such a range can never be written completely in fragments; or data running past the range is let through' )
+    else:
+        res.ok( src, ifs[0], 'a fragment is checked against its range, relative to the range: the last elements fit, one more does not' )
     if plain != 'fall':
         res.bad( src, ifs[0], 'parse_operations refuses the plain write TAG=1 ( %s )' % plain, 'a write without a range is a write of as many elements as values' )
     refuses = fragd == 'raise'
